@@ -41,7 +41,7 @@ template<class H, class T> static void run_pool(Rng& r, Ctx& c, const std::strin
 
 static void run_case(Rng& r, Ctx& c)
 {
-  int kind = r.irange(0, 13);
+  int kind = r.irange(0, 15);
   switch (kind)
   {
     case 0: run_pool<VectorInt, int>(r, c, "VectorInt"); break;
@@ -58,6 +58,8 @@ static void run_case(Rng& r, Ctx& c)
     case 11: c10o::objNeigh(r, c); break;
     case 12: if (r.coin()) c10o::objVarioParam(r, c); else c10o::objCovAniso(r, c); break;
     case 13: c10o::objAnam(r, c); break;
+    case 14:
+    case 15: c10o::objOptimWindow(r, c); break;
   }
 }
 int main(int argc, char** argv) { return run_main(argc, argv, "C10copies", run_case); }
